@@ -258,6 +258,8 @@ def _catalogue():
     # D20 two independent start branches of different length, each publishing its own output variable
     add("D20", {"A": T([("ok", ["a"], ["A2"])]), "A2": T(), "B": T([("ok", ["b"], ["B1"])]), "B1": T([("ok", [], ["B2"])]), "B2": T()},
         output=["a", "b"])
+    # D21 two branches whose first tasks may report paused/pending (A5 harness)
+    add("D21", {"s": T([("ok", [], ["a", "b"])]), "a": T([("ok", [], ["d"])]), "b": T([("ok", [], ["c"])]), "c": T(), "d": T()})
     # D06p split routes with publishes
     add("D06p", {"s": T([("any", ["x"], ["a", "b"])]), "a": T([("any", ["y"], ["m"])]),
                  "b": T([("any", ["x"], ["m"])]), "m": T([("any", ["w"], ["n"])]), "n": T()},
